@@ -96,8 +96,10 @@ def handleCase (mode : String) (id : Nat) (hdr body : List Sexp) : String :=
   | "cache" => Drv.Cache.handle id hdr body
   | "debug" => Drv.Debug.handle id hdr body
   | "mock" => Drv.Mock.handle id hdr body
+  | "mockfail" => Drv.Mock.handleFail id hdr body
   | "dedup" => Drv.Dedup.handle id hdr body
   | "batching" => Drv.Batching.handle id hdr body
+  | "batchingx" => Drv.Batching.handleX id hdr body
   | "generator" => Drv.Generator.handle id hdr body
   | "tools" => Drv.Tools.handle id hdr body
   | "core20" => Drv.Core.handle20 id hdr body
